@@ -36,12 +36,18 @@ structure Cfg where
   /-- the `finally` block puts back the remembered connection *lists* (pinned: it re-connects the
   remembered pairs, which prepends them and so reverses firing orders) -/
   restoreLists : Bool
+  /-- a pull that needs its parent to drive an upstream run is refused when that parent has an
+  executor (pinned: the parent — in its temporary shape — is handed to the executor, nobody waits,
+  nothing upstream has run when the target runs) -/
+  refuseDriverExec : Bool
   deriving Repr, DecidableEq
 
 def Cfg.pinned : Cfg :=
-  { cutAllOutputs := false, parentEmits := true, automateInFinally := false, restoreLists := false }
+  { cutAllOutputs := false, parentEmits := true, automateInFinally := false, restoreLists := false,
+    refuseDriverExec := false }
 def Cfg.repaired : Cfg :=
-  { cutAllOutputs := true, parentEmits := false, automateInFinally := true, restoreLists := true }
+  { cutAllOutputs := true, parentEmits := false, automateInFinally := true, restoreLists := true,
+    refuseDriverExec := true }
 
 /-- a label is the user's label plus, during a pull, the suffix `str(id(node))`
 (string concatenation is taken to be injective on these pairs) -/
@@ -237,6 +243,7 @@ def drive (cfg : Cfg) (w : World) (t starter : Nat) (fuel : Nat) : World × Outc
     (w.absorb x, if !x.stack.isEmpty then .stuck else if x.raised then .failed else .ok)
   | some p =>
     if w.failed p || w.running p then (w, .failed)        -- ReadinessError of the parent
+    else if w.hasExec p then (w, .ok)   -- the parent's run is submitted, a future comes back, nothing has run
     else if (List.range w.n).any (fun i => decide (w.parent i = some p) && w.running i) then
       -- a child is marked running: the parent tries to resume "a broken process" by label, which
       -- raises (the labels are the temporary ones, or the child refuses): nothing runs, the parent fails
@@ -303,6 +310,11 @@ def finish (cfg : Cfg) (w0 w3 : World) (t : Nat) (order : List Nat) (pairs : Lis
   | some p => { w4 with starting := updF w4.starting p (w0.starting p) }
   | none => w4
 
+/-- (repair) something upstream would have to be run by a parent that has an executor -/
+def driverExecRefused (cfg : Cfg) (w : World) (t : Nat) (cl : List Nat) : Bool :=
+  cfg.refuseDriverExec && cl.any (· ≠ t) &&
+    (match w.parent t with | some p => w.hasExec p | none => false)
+
 /-- `run_data_tree` without the recursion into the parent: everything between the closure
 computation and the end of the `finally` block -/
 def upstream (cfg : Cfg) (w : World) (t : Nat) (order chain : List Nat) (fuel : Nat) :
@@ -310,7 +322,7 @@ def upstream (cfg : Cfg) (w : World) (t : Nat) (order chain : List Nat) (fuel : 
   match closureOf w t with
   | none => (w, .cyclic)
   | some cl =>
-    if cl.any w.hasExec then (w, .execRefused)
+    if cl.any w.hasExec || driverExecRefused cfg w t cl then (w, .execRefused)
     else if !validOrder cl order then (w, .badObs)
     else if !order.all (fun i => w.parent i = w.parent t) then
       -- `nodes_to_data_digraph` refuses; the wiring helper puts back the very connection lists
